@@ -52,8 +52,11 @@ Unambiguous(specs) ==
 \* parsers of Unbounded take every following digit (recorded finding), the others at most their width.
 AdjFirst(specs) == {specs[k] : k \in {j \in DOMAIN specs : j + 1 \in DOMAIN specs /\ specs[j] \in Num /\ specs[j + 1] \in Num}}
 Unbounded == {"%H", "%i", "%s", "%S", "%f", "%j"}
-AdjTag(specs) == IF AdjFirst(specs) \cap Unbounded # {} THEN "adjacent-after-unbounded"
-                 ELSE IF AdjFirst(specs) # {} THEN "adjacent" ELSE "separated"
+\* (and DATE_FORMAT prints %y without zero padding, a second recorded finding: a one-digit %y directly
+\* followed by a number cannot be read back)
+AdjTag(specs, v) == IF AdjFirst(specs) \cap Unbounded # {} THEN "adjacent-after-unbounded"
+                    ELSE IF "%y" \in AdjFirst(specs) /\ v.y % 100 < 10 THEN "adjacent-after-one-digit-y"
+                    ELSE IF AdjFirst(specs) # {} THEN "adjacent" ELSE "separated"
 
 MM(i, e, what, tag, exp) ==
     PrintT("MM " \o ToJson([l |-> i, id |-> e.id, ev |-> e.ev, form |-> e.form, what |-> what, tag |-> tag, exp |-> exp]))
@@ -66,8 +69,8 @@ JFmt(i, e) ==
     ELSE /\ Chk(e.vs \notin Rejected, i, e, "valid-rejected:cast", "", DTStr(T(e.v)))
          /\ Chk(e.f \notin Rejected, i, e, "valid-rejected:date_format", "", "a string")
          /\ ((Complete(e.specs, e.v) /\ Unambiguous(e.specs) /\ e.vs \notin Rejected) =>
-               /\ Chk(e.back = e.vs, i, e, "parse-of-format", AdjTag(e.specs), e.vs)
-               /\ Chk(e.nest = e.vs, i, e, "parse-of-format-nested", AdjTag(e.specs), e.vs))
+               /\ Chk(e.back = e.vs, i, e, "parse-of-format", AdjTag(e.specs, e.v), e.vs)
+               /\ Chk(e.nest = e.vs, i, e, "parse-of-format-nested", AdjTag(e.specs, e.v), e.vs))
 NtFmt(e) == ValidV(e.v) /\ Complete(e.specs, e.v) /\ Unambiguous(e.specs)
 
 \* ---- add then subtract --------------------------------------------------------------------------
